@@ -76,8 +76,16 @@ def run(rep):
                 sel = S.alg.bdd.as_conjunction(ccan[1][1])
             except Exception:
                 sel = None
-        facts["cs_i = Some(x) ? x : fresh"] = (sel is not None and len(sel) == 1 and sel[0][1] is True and sel[0][0] == ("eq", ("discr", opts), ("int", 1))
-                                               and ccan[1][2] == ("vfield", opts, 1, 0) and ccan[1][3][0] == "rand" and not contains_term(ccan[1][3], opts))
+        some_branch = none_branch = None
+        if sel is not None and len(sel) == 1:
+            some_lits = ((("eq", ("discr", opts), ("int", 1)), True), (("eq", ("discr", opts), ("int", 0)), False))
+            none_lits = ((("eq", ("discr", opts), ("int", 1)), False), (("eq", ("discr", opts), ("int", 0)), True))
+            if sel[0] in some_lits:
+                some_branch, none_branch = ccan[1][2], ccan[1][3]
+            elif sel[0] in none_lits:
+                some_branch, none_branch = ccan[1][3], ccan[1][2]
+        facts["cs_i = Some(x) ? x : fresh"] = (some_branch == ("vfield", opts, 1, 0) and none_branch is not None and none_branch[0] == "rand"
+                                               and not contains_term(none_branch, opts))
         # the blinding commitment scalar is whatever multiplies h in T; the response must be c*bf + that scalar
         bcs0 = cofactor(S, S.alg.poly(("sub", T, ip(gs, cs, "N"))), h)
         bcs = [bcs0] if bcs0 is not None else []
